@@ -39,12 +39,14 @@ LEVEL_TEXT = ("For the model of auto()/_spin/advance/set_message/finish (one sch
               "Event.set/is_set, Thread.start/join; arbitrary clock advances) the theorems hold for EVERY schedule, program "
               "and configuration: the terminal line is blank or exactly one frame after every write, the spinner is done "
               "whenever the block has been left - normally or by ANY exception kind raised in the body - and stops within 4 of "
-              "its own steps once the event is set, the end-message frame and the newline are the last writes of a normal exit, manual "
+              "its own steps once the event is set (sharp form: within `rank` of its program counter, spinner_stops_within_rank), the end-message frame and the newline are the last writes of a normal exit, manual "
               "advancing is throttled by the interval and every frame is indicator value + current message per the format; "
               "the pre-fix two-write protocol (D23) and the pre-fix `except (Exception, KeyboardInterrupt)` (D32) have proved "
               "counterexamples. The model is tied to the code by running the real "
               "component under a deterministic scheduler on complete enumerations of schedules up to a preemption bound and "
-              "random schedules, comparing executed schedule, write traces, final program counters and terminal lines.")
+              "random schedules, comparing executed schedule, write traces, final program counters and terminal lines; the "
+              "hypotheses of the theorems about the configuration (no CR/LF/ESC, an indicator value) are decided by the model on "
+              "every case (wf_decides).")
 LEVEL_NOTE = ("Trusted: Lean kernel + propext/Quot.sound/Classical.choice, the deterministic scheduler and terminal emulator of "
               "harness/props/c19.py, CPython's GIL-level atomicity of attribute reads/writes. Not exhibited: preemption inside "
               "one stream write, interleavings below the granularity of a visible operation (bytecode level), memory-model "
@@ -54,7 +56,9 @@ REQUIRED_THEOREMS = ["Clikit.Props.C19." + n for n in (
     "no_mixture", "frame_shape_auto", "always_joined", "every_exit_is_handled", "always_joined_handled",
     "escaped_leaves_spinner_running", "no_foreign_error",
     "spinner_stops_within", "never_stuck", "end_message_last", "end_message_shown", "advance_throttled", "frame_shape",
-    "Counter.c19_mixture_old", "Counter.c19_uncaught_leaves_spinner_running_old", "source_shape")]
+    "Counter.c19_mixture_old", "Counter.c19_uncaught_leaves_spinner_running_old", "source_shape",
+    "wf_decides", "cleanCfgB_iff", "no_mixture_decided", "frame_shape_auto_decided", "end_message_shown_decided",
+    "frame_shape_decided", "spinner_stops_within_rank")]
 RULE = ("auto mode: (a) for each of 10 main programs (empty body, set_message while spinning, two messages, body raises, "
         "set then KeyboardInterrupt, early exit, raise at once, messages with blanks/braces, SystemExit after work, "
         "set then SystemExit) x configurations (ANSI, plain, "
@@ -78,8 +82,11 @@ ASSUMPTIONS = [
     "granularity: one scheduling point per stream write, time.sleep, Event.set/is_set, Thread.start/join; the local code between "
     "two such operations (e.g. `_message = m` and the computation of the frame text) is atomic in the model and under the scheduler",
     "a single stream write is atomic (no preemption inside OutputStream.write); no memory-model effects below the bytecode level",
-    "messages, indicator values and format literals contain no CR/LF/ESC and no style tags; quiet outputs and the {elapsed} "
-    "placeholder are outside the model",
+    "messages, indicator values and format literals contain no CR/LF/ESC (hypothesis CleanCfg of no_mixture / end_message_shown) "
+    "and there is an indicator value (hypothesis of the frame-shape theorems): both are DECIDED by the model on the configuration "
+    "of every case (answer key `wf`, theorem wf_decides) and compared with true; no style tags in messages (not a hypothesis of a "
+    "theorem: a tag would show up as a disagreement of the write traces); quiet outputs and the {elapsed} placeholder are outside "
+    "the model",
     "time.time()*1000 rounds to the virtual millisecond exactly; the spinner period 0.1 s is 100 virtual ms",
     "bodies raise Exception, KeyboardInterrupt or SystemExit (SystemExit stands for every other BaseException kind); "
     "D32 (spinner left running after SystemExit) is repaired in the repository: the oracle demands the join for every "
@@ -552,8 +559,8 @@ def model_obs(case, answers):
     if case["mode"] == "auto":
         return {"status": a["status"], "executed": a["executed"], "writes": a["writes"], "lines": a["lines"],
                 "pcs": a["pcs"], "main_outcome": a["main_outcome"], "spin_crashed": a["crashed"],
-                "alive_at_exit": a["alive_at_exit"], "clock": a["clock"]}
-    return {"ops": [{"writes": o["writes"], "err": o["err"]} for o in a["ops"]], "lines": a["lines"]}
+                "alive_at_exit": a["alive_at_exit"], "clock": a["clock"], "wf": a["wf"]}
+    return {"ops": [{"writes": o["writes"], "err": o["err"]} for o in a["ops"]], "lines": a["lines"], "wf": a["wf"]}
 
 
 def impl_view(case, obs):
@@ -562,9 +569,13 @@ def impl_view(case, obs):
                 "lines": term_lines([w[1] for w in obs["writes"]]),
                 "pcs": obs["pcs"], "main_outcome": obs["main_outcome"],
                 "spin_crashed": bool(obs["spin_outcome"] and obs["spin_outcome"].startswith("raised:")),
-                "alive_at_exit": obs["alive_at_exit"], "clock": obs["clock"]}
+                "alive_at_exit": obs["alive_at_exit"], "clock": obs["clock"],
+                # the hypotheses of the theorems (CleanCfg, an indicator value exists) must hold for the configuration
+                # the real component was built from: decided by the model (Props.C19.wf_decides), expected true
+                "wf": {"clean": True, "has_values": True}}
     return {"ops": [{"writes": o["writes"], "err": o["err"]} for o in obs["ops"]],
-            "lines": term_lines([w for o in obs["ops"] for w in o["writes"]])}
+            "lines": term_lines([w for o in obs["ops"] for w in o["writes"]]),
+            "wf": {"has_values": True}}
 
 
 # ------------------------------------------------------------------------------------------------
